@@ -43,7 +43,7 @@ pub fn check(tier: Tier) -> Check {
         also_rel: false,
         property: "C11",
         level: "model_checking",
-        rule: "(a) 12 deterministic runs of 70 000 identifier-consuming operations through the real handle/context (QoS 1 only, QoS 2 only, subscribe only, round robin) with 0, 1 or 3 acknowledgements outstanding, and 3 runs in which one QoS 1 publish stays outstanding during 70 000 requests that need no identifier (QoS 0 publishes, pings) and 70 that do; (b) all sequences of operation starts and acknowledgements up to the stated depth from counters preset (hook) to 65533/65534/65535 and subscription identifiers preset to 1/127/268435454; (b') the same with Receive Maximum 1 or Maximum Packet Size 12 in force, so that locally refused requests sit between the accepted ones, the context task held back and released (deviations); (b'') the same with the operations issued on one long-lived handle (one after the other) and on clones taken from it in between; (b''') an operation whose future is created, left unpolled while the counters go once round (rewound by the hook) and another operation takes the same values, and polled then; (c) differential validation of the hook against an honest run to the same point; (d) loom: all interleavings (unbounded; 3x2 with preemption bound 3 in thorough) of 2 threads x 2 and 3 threads x 1 first polls of publish QoS 1/2, subscribe, unsubscribe on real handle clones at the two library atomics, started at counters 1 and next to the wrap, drained through the real Context and decoded; oracle: every identifier on the wire is non-zero (strict decoder), differs from every outstanding one, subscription identifiers are never reused, no panic; non-trivial = the packet identifier counter wrapped".into(),
+        rule: "(a) 12 deterministic runs of 70 000 identifier-consuming operations through the real handle/context (QoS 1 only, QoS 2 only, subscribe only, round robin) with 0, 1 or 3 acknowledgements outstanding, and 3 runs in which one QoS 1 publish stays outstanding during 65 530 requests that need no identifier (QoS 0 publishes / pings / both) followed by 12 that do; (b) all sequences of operation starts and acknowledgements up to the stated depth from counters preset (hook) to 65533/65534/65535 and subscription identifiers preset to 1/127/268435454; (b') the same with Receive Maximum 1 or Maximum Packet Size 12 in force, so that locally refused requests sit between the accepted ones, the context task held back and released (deviations); (b'') the same with the operations issued on one long-lived handle (one after the other) and on clones taken from it in between; (b''') an operation whose future is created, left unpolled while the counters go once round (rewound by the hook) and another operation takes the same values, and polled then; (c) differential validation of the hook against an honest run to the same point; (d) loom: all interleavings (unbounded; 3x2 with preemption bound 3 in thorough) of 2 threads x 2 and 3 threads x 1 first polls of publish QoS 1/2, subscribe, unsubscribe on real handle clones at the two library atomics, started at counters 1 and next to the wrap, drained through the real Context and decoded; oracle: every identifier on the wire is non-zero (strict decoder), differs from every outstanding one, subscription identifiers are never reused, no panic; non-trivial = the packet identifier counter wrapped".into(),
         assumptions: vec![
             "fewer than 65535 identifiers are allocated while any operation is outstanding (premise of the property)".into(),
             "loom explores interleavings at the two library atomics only; futures-channel (std atomics) is in the trusted base".into(),
@@ -79,21 +79,38 @@ fn long(name: String, params: Value) -> Scenario {
             // allocated meanwhile, so nobody may be given the outstanding one.
             sys.apply(Ev::Start(OpSpec::Publish(PublishSpec::simple(1, "t/anchor", b"held open"))));
             let anchor = sys.m.ops.len() - 1;
-            let extra = [0usize, 1, 2][window.min(2)];
-            for i in 0..n {
+            // 65 530 requests that need no identifier (window 0: QoS 0 publishes, 1: pings, 3: both in
+            // turn), then twelve that do - wherever an implementation that wrongly drew an identifier
+            // for the former would have come round to the anchor's, one of the twelve gets it
+            for i in 0..65_530usize {
                 if sys.dead {
                     break;
                 }
-                if i % 997 == 996 {
-                    sys.apply(Ev::Start(OpSpec::Publish(PublishSpec::simple(1 + (i % 2) as u8, "t", b"a"))));
-                    let op = sys.m.ops.len() - 1;
-                    finish_op(&mut sys, op);
-                } else if (i + extra) % 50 == 0 {
+                let ping = match window {
+                    0 => false,
+                    1 => true,
+                    _ => i % 2 == 0,
+                };
+                if ping {
                     sys.apply(Ev::Start(OpSpec::Ping));
                     sys.apply(Ev::Deliver(SPacket::Pingresp));
                 } else {
                     sys.apply(Ev::Start(OpSpec::Publish(PublishSpec::simple(0, "t/0", b"no identifier"))));
                 }
+            }
+            for i in 0..12usize {
+                if sys.dead {
+                    break;
+                }
+                let spec = match i % 4 {
+                    0 => OpSpec::Publish(PublishSpec::simple(1, "t", b"a")),
+                    1 => OpSpec::Publish(PublishSpec::simple(2, "t", b"b")),
+                    2 => OpSpec::Subscribe(SubscribeSpec::simple("s")),
+                    _ => OpSpec::Unsubscribe(UnsubscribeSpec::simple("s")),
+                };
+                sys.apply(Ev::Start(spec));
+                let op = sys.m.ops.len() - 1;
+                finish_op(&mut sys, op);
             }
             if !sys.dead {
                 finish_op(&mut sys, anchor);
@@ -102,7 +119,7 @@ fn long(name: String, params: Value) -> Scenario {
             if !sys.dead {
                 sys.m.hits.push("pid-wrapped");
             }
-            sys.events = vec![format!("one QoS 1 publish outstanding during {} requests of which {} need an identifier", n, n / 997)];
+            sys.events = vec![format!("one QoS 1 publish outstanding during 65530 requests that need no identifier (window choice {}) and 12 that do", window)];
             return sys.report(ex, &["pid-wrapped"]);
         }
         let specs = [
